@@ -550,6 +550,48 @@ def scenario_record(g, H):
             outs = [doc.render(), doc.render(lib_prefix="x")]
         ok = all(want_html in o["html"] and "unexpanded" not in o["html"] and want_dep in [d.name for d in o["dependencies"]] for o in outs)
         return obs("RenderProducesWhatTheExpandedTreeProduces" if name == "append_after_tagify" else "HTMLDocumentRenderExpandsTheSameWay", ok)
+    if name == "cached_head_component":
+        # a component directly under the caller's <html> that hands back the SAME <head> tag every time: what the document
+        # puts into <head> never ends up in the component's own tag
+        cached = H.tags.head(H.tags.title("from component"))
+
+        class HeadComp:
+            def tagify(self):
+                return cached
+        page = H.tags.html(HeadComp(), H.tags.body("b", dep("d1")))
+        want_tree = H.tags.html(H.tags.head(H.tags.title("from component")), H.tags.body("b", dep("d1")))
+        want_doc = H.HTMLDocument(H.tags.html(H.tags.head(H.tags.title("from component")), H.tags.body("b", dep("d1")))).render()["html"]
+        doc = H.HTMLDocument(page)
+        r1 = doc.render()["html"]
+        t1 = page.render()["html"]
+        r2 = doc.render()["html"]
+        return obs("HTMLDocumentRenderExpandsTheSameWay", r1 == want_doc and r2 == want_doc and t1 == want_tree.render()["html"]
+                   and str(cached) == str(H.tags.head(H.tags.title("from component"))))
+    if name == "raise_then_ready":
+        # a component that cannot expand yet: the failure leaves the tree as it was; once the component is ready the very
+        # same tree renders its expansion
+        class Late:
+            ready = False
+
+            def tagify(self):
+                if not self.ready:
+                    raise ValueError("not ready")
+                return H.TagList(H.tags.b("late"), dep("late-dep"))
+        w = Late()
+        shapes_ = [H.tags.div(w, id="x"), H.tags.div("a", H.tags.p(H.tags.span(w)), "z"), H.TagList("t", H.tags.div(w)),
+                   H.tags.div(H.tags.i("first"), w)]
+        tree = shapes_[g.get("n", 0) % len(shapes_)]
+        docs = [tree, H.HTMLDocument(tree)][g.get("n", 0) // len(shapes_) % 2]
+        try:
+            docs.render()
+            failed = False
+        except ValueError:
+            failed = True
+        w.ready = True
+        out = docs.render()
+        return obs("RenderProducesWhatTheExpandedTreeProduces",
+                   failed and "<b>late</b>" in out["html"] and "late-dep" in [d.name for d in out["dependencies"]]
+                   and ("first" in out["html"]) == (g.get("n", 0) % len(shapes_) == 3))
     if name == "per_instance":
         # whether an object is tagifiable is a property of THAT object: an instance that got its tagify() per instance
         # expands, whatever other instances of its class did before in this process
@@ -812,6 +854,8 @@ class C09(_Base):
                 gens.append({"kind": "scenario", "name": "head_content", "n": n % 3, "v": "v%d" % n})
                 gens.append({"kind": "scenario", "name": "per_instance", "first_tfy": n % 2 == 0, "n": n})
                 gens.append({"kind": "scenario", "name": "append_after_tagify", "n": n})
+                gens.append({"kind": "scenario", "name": "cached_head_component", "n": n})
+                gens.append({"kind": "scenario", "name": "raise_then_ready", "n": n})
                 gens.append({"kind": "scenario", "name": "doc_rerender_after_growth", "n": n})
             gens.append({"kind": "expand", "tree": t})
             gens.append({"kind": "hist", "tree": t, "seed": n, "hist": [
